@@ -104,7 +104,7 @@ CHECKS = {
                      "position, every gap and both bounds) and multi-fault mutants enter by BER; asn_check_constraints is called with error buffers of 0/1/2/16/128 bytes "
                      "and NULL; the verdict must equal the model's, must not depend on the buffer, and a failure message must be terminated, fit, and name a type.",
                 note="Extensible constraints, WITH COMPONENTS, PATTERN, CONTAINING not generated; BMPString U+FFFE/U+FFFF values are not judged; sampled values."),
-    "C09": dict(level="exploration", engine="compiler-monitor + vdriver", ref="DESIGN.md 4/C09",
+    "C09": dict(level="exploration", engine="vdriver", ref="DESIGN.md 4/C09",
                 technique="reference-model monitor: UPER/OER bytes and asn1c -print-constraints ranges of systematically enumerated constraint trees vs the X.691 10.3 / X.696 8.2 effective constraint; equivalence classes of types compared with each other",
                 text="Every constraint tree of depth <= 2 over a small universe (INTEGER values, SIZE of OCTET/BIT/IA5 strings and SEQUENCE OF), with and without extension "
                      "marker and additions, serial application and reference chains, random trees over 64-bit/16K/64K boundaries; values at and around every bound enter "
